@@ -110,7 +110,7 @@ func runC14(c *Ctx) {
 	c.rule("R-SPAN-SENTINEL", 1, "every use of a sentinel-carrying result of the span parser is preceded by a comparison with the sentinel")
 	c.rule("R-PREFIX-TABLES", 12, "writer and reader constants agree by value")
 	c.rule("R-TIMEFMT", 2, "the reader parses timestamps with the constant the writers default to")
-	c.rule("R-OP-EXHAUSTIVE", 5, "every EditOp switch in package mdiff is exhaustive or has a strict default")
+	c.rule("R-OP-EXHAUSTIVE", 2, "every EditOp switch in package mdiff is exhaustive or has a strict default")
 	c.rule("R-PATCH-FRESH", 1, "chunk slices handed out in a Patch are not re-sliced for reuse by the reader")
 
 	// context lines of the unified/context formats come from findContext: the bound rules of C13 apply
@@ -124,6 +124,8 @@ func runC14(c *Ctx) {
 	ruleMdiffPairs(c)
 	ruleFormatCursors(c)
 	ruleStaleAfterEdit(c)
+	ruleUnifyConsumes(c)
+	ruleHandoverReset(c)
 	ruleTimeExact(c)
 	ruleSpanSiblings(c)
 	ruleSuccessAtEOF(c)
@@ -494,6 +496,19 @@ func runC14(c *Ctx) {
 			c.judge(got.op == wantOp, "R-PREFIX-TABLES", key, unified.Pos(), fmt.Sprintf("%q ↔ %s, payload from offset %d", want.pfx, opNames[got.op], got.off), fmt.Sprintf("lines the writer marks %q (%s.%s) are read back as %s", want.pfx, opNames[op], want.field, opNames[got.op]))
 		}
 	}
+	// the same tables read off the control-flow graph, for whatever the syntax-tree readers did not recognise
+	if len(wUnified) == 0 {
+		for op, ws := range unifiedWriterTableSSA(P, []int64{'-', '=', '+', '!'}) {
+			for _, w := range ws {
+				wUnified[op] = append(wUnified[op], wl{w.pfx, w.field})
+			}
+		}
+	}
+	for k, r := range unifiedReaderTableSSA(P) {
+		if _, have := rUnified[k]; !have {
+			rUnified[k] = rl{r.op, r.off}
+		}
+	}
 	nLines := 0
 	for _, op := range []int64{'-', '=', '+', '!'} {
 		for _, w := range wUnified[op] {
@@ -601,6 +616,20 @@ func runC14(c *Ctx) {
 				}
 			}
 		}
+		if len(rPfx) == 0 {
+			// the same cut written as a test and a re-slice: strings.HasPrefix(line, p) … line[len(p):]
+			seenP := map[string]bool{}
+			for _, fname := range []string{"HasPrefix", "TrimPrefix"} {
+				for _, call := range callsIn(ruh, fname) {
+					if len(call.Args) == 2 {
+						if s, ok := strConst(info, call.Args[1]); ok && !seenP[s] {
+							seenP[s] = true
+							rPfx = append(rPfx, s)
+						}
+					}
+				}
+			}
+		}
 		if hsides, _, _, okH := headerAgreement(P); okH {
 			// by data flow: the header call for a side is handed the prefix the reader cuts for that side (and not the other side's)
 			var probs []string
@@ -695,7 +724,8 @@ func runC14(c *Ctx) {
 		cutLetters := map[string]bool{}
 		// values of range variables over literals of string constants: for _, c := range [...]string{"a","c","d"}
 		rangeVals := map[types.Object][]string{}
-		ast.Inspect(rn, func(n ast.Node) bool {
+		for _, rnScope := range helperDecls(p, rn, 2) {
+		ast.Inspect(rnScope, func(n ast.Node) bool {
 			rs, ok := n.(*ast.RangeStmt)
 			if !ok || rs.Value == nil {
 				return true
@@ -722,16 +752,98 @@ func runC14(c *Ctx) {
 			}
 			return true
 		})
-		for _, call := range callsIn(rn, "Cut") {
-			if len(call.Args) == 2 {
-				if s, ok := strConst(info, call.Args[1]); ok {
-					cutLetters[s] = true
-				} else if id, ok := call.Args[1].(*ast.Ident); ok {
-					for _, v := range rangeVals[info.Uses[id]] {
-						cutLetters[v] = true
+		}
+		for _, rnScope := range helperDecls(p, rn, 2) {
+			for _, call := range callsIn(rnScope, "Cut") {
+				if len(call.Args) == 2 {
+					if s, ok := strConst(info, call.Args[1]); ok {
+						cutLetters[s] = true
+					} else if id, ok := call.Args[1].(*ast.Ident); ok {
+						for _, v := range rangeVals[info.Uses[id]] {
+							cutLetters[v] = true
+						}
 					}
 				}
 			}
+		}
+		// the command → opcode table written as an if/else chain on the command letter; a final else is the one
+		// letter the line can be cut on that the chain has not tested
+		{
+			opIn := func(b *ast.BlockStmt) (int64, bool) {
+				var v int64
+				found := false
+				if b == nil {
+					return 0, false
+				}
+				ast.Inspect(b, func(m ast.Node) bool {
+					if as, ok := m.(*ast.AssignStmt); ok && len(as.Lhs) == 1 && selName(as.Lhs[0]) == "Op" {
+						if k, ok := constIntOf(info, as.Rhs[0]); ok {
+							v, found = k, true
+						}
+					}
+					return true
+				})
+				return v, found
+			}
+			isElse := map[*ast.IfStmt]bool{}
+			ast.Inspect(rn, func(n ast.Node) bool {
+				if ifs, ok := n.(*ast.IfStmt); ok {
+					if e, ok := ifs.Else.(*ast.IfStmt); ok {
+						isElse[e] = true
+					}
+				}
+				return true
+			})
+			ast.Inspect(rn, func(n ast.Node) bool {
+				top, ok := n.(*ast.IfStmt)
+				if !ok || isElse[top] {
+					return true
+				}
+				tested := map[string]bool{}
+				chain := map[string]int64{}
+				cur := top
+				for cur != nil {
+					be, ok := cur.Cond.(*ast.BinaryExpr)
+					if !ok || be.Op != token.EQL {
+						return true
+					}
+					letter, okL := strConst(info, be.Y)
+					if _, isID := be.X.(*ast.Ident); !okL || !isID {
+						return true
+					}
+					tested[letter] = true
+					if v, ok := opIn(cur.Body); ok {
+						chain[letter] = v
+					}
+					switch e := cur.Else.(type) {
+					case *ast.IfStmt:
+						cur = e
+					case *ast.BlockStmt:
+						if v, ok := opIn(e); ok {
+							var rem []string
+							for l := range cutLetters {
+								if !tested[l] {
+									rem = append(rem, l)
+								}
+							}
+							if len(rem) == 1 {
+								chain[rem[0]] = v
+							}
+						}
+						cur = nil
+					default:
+						cur = nil
+					}
+				}
+				if len(chain) >= 2 {
+					for l, v := range chain {
+						if _, have := rCmd[l]; !have {
+							rCmd[l] = v
+						}
+					}
+				}
+				return true
+			})
 		}
 		// table form: a table of command records {letter, op, …}; the reader cuts on record.letter and assigns record.op
 		if recLetters, recTypes := recordTables(p); len(recLetters) > 0 {
